@@ -93,7 +93,10 @@ def server(ctx, prog, ev, hier):
     av = hr.calls(name="BlobAvailabilityResponse")
     for c in av:
         txt = unparse(c)
-        ok = "in self.blob_manager.completed_blob_hashes" in txt and "requested_blobs" in txt
+        lam = [n for n in ast.walk(c) if isinstance(n, ast.Lambda)]
+        flt = [n for n in ast.walk(c) if isinstance(n, ast.Call) and call_name(n) == "filter"]
+        ok = len(lam) == 1 and len(flt) == 1 and flt[0].args[0] is lam[0] and norm_text(flt[0].args[1]) == "availability_request.requested_blobs" and \
+            R.same_test(lam[0].body, f"{lam[0].args.args[0].arg} in self.blob_manager.completed_blob_hashes") and norm_text(kwarg(c, "available_blobs")) == f"list(set({norm_text(flt[0])}))"
         ctx.ob("C10-D1/DEP", ok, hr.site(c), "availability lists only requested blobs that are completed", func=q)
 
     # send_response drains its argument
@@ -384,3 +387,106 @@ def client(ctx, prog, ev, hier):
     want = {"lbrycrd_address", "available_blobs", "blob_data_payment_rate", "incoming_blob"}
     ctx.ob("C10-D3/TABLE", keys == want, pa.site(), "the header probe accepts exactly the response keys of the protocol",
            detail="" if keys == want else str(sorted(keys)), func=pa.fi.qualname)
+
+
+_base_check_c10 = check
+
+
+def check(ctx):            # noqa: F811  (extends the rules above with the completeness half)
+    _base_check_c10(ctx)
+    framing(ctx, ctx.prog)
+
+
+def framing(ctx, prog):
+    """an honest transfer completes: the framing state machines act on every message they should (conditions are the functions' own tests, nothing
+    narrower), buffers start empty, the parser's cursor arithmetic is exact"""
+    C = "lbry.blob_exchange.client.BlobExchangeClientProtocol"
+    S = "lbry.blob_exchange.server.BlobServerProtocol"
+    dr = ctx.fa(f"{C}.data_received")
+    d = dr.fi.params()[1]
+    live = "self.transport and not self.transport.is_closing()"
+    vocab = ["self.connection_manager", "self.peer_address", live, "self._response_fut", "self._response_fut.done()", "self._blob_bytes_received", "self.writer.closed()",
+             "response.responses", "self.blob", "blob_response", "blob_response.error", "blob_response.blob_hash == self.blob.blob_hash", "response.blob_data", "self.writer"]
+    rows = [
+        (f"return self._write({d})", f"{live} and self._response_fut and self._blob_bytes_received and not self.writer.closed()",
+         "once blob bytes are flowing every further segment goes straight to the writer"),
+        (f"response = BlobResponse.deserialize(self.buf + {d})", f"{live} and self._response_fut", "otherwise the buffered bytes plus the new segment are parsed"),
+        (f"self.buf += {d}", f"{live} and self._response_fut and not response.responses and not self._response_fut.done()", "an incomplete header is buffered (a header split across segments)"),
+        ("self.buf = b''", f"{live} and self._response_fut", "a parsed message empties the buffer"),
+        ("self.blob.set_length(blob_response.length)", f"{live} and response.responses and self.blob and blob_response and not blob_response.error and blob_response.blob_hash == self.blob.blob_hash",
+         "the announced length of the requested blob is adopted"),
+        ("self._response_fut.set_result(response)", f"{live} and response.responses", "every parsed response fires the request future"),
+        ("self._write(response.blob_data)", f"{live} and response.blob_data and self.writer and not self.writer.closed()", "blob bytes glued to the header go to the writer"),
+        ("self._response_fut.cancel()", "self._response_fut and not self._response_fut.done()", "bytes on a closing transport cancel the pending request"),
+        ("return self.close()", f"{live} and not self._response_fut", "unsolicited bytes close the connection"),
+    ]
+    rows.append(("return", f"{live} and response.responses and self.blob and blob_response and not blob_response.error and self.blob.blob_hash != blob_response.blob_hash",
+                 "a header naming another blob is dropped (nothing fires, nothing is written)", -1))
+    R.effect_table(ctx, "C10-D6/FRAME", dr, vocab, rows, "client: ")
+    for x in dr.stmts(ast.AugAssign):
+        if norm_text(x) == f"self.buf += {d}":
+            nxt = R.next_stmt(x)
+            ok = isinstance(nxt, ast.Return) and nxt.value is None
+            ctx.ob("C10-D6/FRAME", ok, dr.site(x), "client: after buffering an incomplete header the call returns — the partial header is never treated as blob bytes", func=dr.fi.qualname,
+                   key="C10-D6/FRAME|client|buffer-then-return")
+    wr = ctx.fa(f"{C}._write")
+    ok = [norm_text(x) for x in wr.stmts(ast.AugAssign)] == [f"self._blob_bytes_received += len({wr.fi.params()[1]})"] and not R.atomic_facts_at(wr, wr.stmts(ast.AugAssign)[0])[0]
+    ctx.ob("C10-D6/FRAME", ok, wr.site(), "client: every forwarded chunk is counted, unconditionally", func=wr.fi.qualname)
+    ci = ctx.fa(f"{C}.__init__")
+    t = [norm_text(x) for x in ci.stmts((ast.Assign, ast.AnnAssign))]
+    ok = "self.buf = b''" in t and "self._blob_bytes_received = 0" in t
+    ctx.ob("C10-D6/FRAME", ok, ci.site(), "client: buffer empty and byte count 0 at start", func=ci.fi.qualname)
+    # response header probe
+    pr = ctx.fa("lbry.blob_exchange.serialization._parse_blob_response")
+    m = pr.fi.params()[0]
+    q = pr.fi.qualname
+    pv = ["next_close_paren == -1", "isinstance(response, dict)", "response.keys()", "set(response.keys()).issubset(possible_response_keys)"]
+    rows = [
+        ("curr_pos = 0", "", "the cursor starts at 0"),
+        (f"next_close_paren = {m}.find(b'}}', curr_pos)", "", "the next closing brace is searched from the cursor"),
+        (f"return (None, {m})", "next_close_paren == -1", "no brace left: not a header, all bytes are blob data", 0),
+        ("curr_pos = next_close_paren + 1", "not next_close_paren == -1", "the cursor moves just past that brace"),
+        (f"response = json.loads({m}[:curr_pos])", "not next_close_paren == -1", "the prefix up to the cursor is tried as JSON"),
+        (f"return (None, {m})", "not next_close_paren == -1", "valid JSON that is not a protocol header: all bytes are blob data", -1),
+        (f"return (response, {m}[curr_pos:])", "isinstance(response, dict) and response.keys() and set(response.keys()).issubset(possible_response_keys)",
+         "a non-empty dict of protocol keys is the header; the rest, from the cursor on, is blob data"),
+    ]
+    R.effect_table(ctx, "C10-D6/FRAME", pr, pv, rows, "header probe: ")
+    wl = pr.stmts(ast.While)
+    ok = len(wl) == 1 and is_const(wl[0].test, True) and any(isinstance(h.body[-1], ast.Continue) for t_ in pr.stmts(ast.Try) for h in t_.handlers)
+    ctx.ob("C10-D6/FRAME", ok, pr.site(), "header probe: a prefix that is not JSON yet is extended to the next brace (loop, continue)", func=q)
+    p = pr.path([pr.cfg.entry], [pr.cfg.exit], avoid=lambda n: n.kind == "return", include_exc=False)
+    ctx.ob("C10-D6/FRAME", p is None, pr.site(), "header probe: every path returns a (header, rest) pair", func=q)
+    # server
+    sd = ctx.fa(f"{S}.data_received")
+    d = sd.fi.params()[1]
+    small = f"not len(self.buf) + len({d} or b'') >= MAX_REQUEST_SIZE"
+    sv = [small, d, "separator", "request.requests"]
+    rows = [
+        (f"(_, separator, remainder) = {d}.rpartition(b'}}')", f"{small} and {d}", "the segment is split at its last closing brace"),
+        (f"self.buf += {d}", f"{small} and {d} and not separator", "a segment without closing brace is buffered"),
+        (f"request = BlobRequest.deserialize(self.buf + {d})", f"{small} and {d} and separator", "buffer plus segment are parsed once a brace arrived"),
+        ("self.buf = remainder", f"{small} and {d} and separator", "what follows the brace stays buffered"),
+        ("self.loop.create_task(self.handle_request(request))", "request.requests", "every recognised request is handled"),
+    ]
+    if not any(norm_text(x).startswith("(_, separator, remainder)") for x in sd.stmts(ast.Assign)):
+        rows[0] = (f"_, separator, remainder = {d}.rpartition(b'}}')",) + rows[0][1:]
+    R.effect_table(ctx, "C10-D6/FRAME", sd, sv, rows, "server: ")
+    hr = ctx.fa(f"{S}.handle_request")
+    hv = ["address_request", "availability_request", "price_request", "download_request", "blob.get_is_verified()", "responses", "self.transport.is_closing()", "sent", "sent > 0"]
+    rows = [
+        ("responses.append(BlobPaymentAddressResponse(", "address_request", "an address request is answered"),
+        ("responses.append(BlobAvailabilityResponse(", "availability_request", "an availability request is answered"),
+        ("responses.append(BlobPriceResponse(", "price_request", "a price request is answered"),
+        ("responses.append(BlobDownloadResponse(", "download_request and blob.get_is_verified()", "a download request for a verified blob gets its header…"),
+        ("self.send_response(responses)", "download_request and blob.get_is_verified()", "…which is sent before the blob bytes", 0),
+        ("self.send_response(responses)", "responses and not self.transport.is_closing()", "whatever responses remain are sent at the end, unless the transport is closing", -1),
+    ]
+    R.effect_table(ctx, "C10-D6/FRAME", hr, hv, rows, "server: ")
+    t = unparse(hr.node)
+    ok = all(f"{a} = request.{b}()" in t for a, b in (("address_request", "get_address_request"), ("availability_request", "get_availability_request"),
+                                                      ("price_request", "get_price_request"), ("download_request", "get_blob_request")))
+    ctx.ob("C10-D6/FRAME", ok, hr.site(), "server: each part is taken from the request by its own accessor", func=hr.fi.qualname)
+    si = ctx.fa(f"{S}.__init__")
+    ok = "self.buf = b''" in [norm_text(x) for x in si.stmts(ast.Assign)]
+    ctx.ob("C10-D6/FRAME", ok, si.site(), "server: the request buffer starts empty", func=si.fi.qualname)
